@@ -11,8 +11,9 @@ The model follows the code THAT EXISTS, quirks included:
 * `Config.add` never overwrites an existing attribute, so the constructor dictionary of `System`
   (added first) beats the rc file and the `-O` options (merged into the rc object), which beat defaults;
 * `Config._set` turns a string into `int` if `int()` accepts it, else into `float` if `float()` accepts it;
-* `Config.as_dict()` caches its result in `_dict` and only recomputes when the cache is EMPTY; `check()`
-  and `collect_config()` read the cache, so after the constructor's `check()` later changes are neither
+* `Config.as_dict()` caches its result in `_dict` and only recomputes when the cache is EMPTY or a refresh is
+  asked for; `check()` and `collect_config()` ask for a refresh (repaired).  [pinned tree:] they read the cache,
+  so after the constructor's `check()` later changes were neither
   validated nor saved;
 * `ConfigParser.set` raises `NoSectionError` for a missing section, `add_section` raises
   `DuplicateSectionError` for an existing one; `_update_config_object` (repaired) adds a section exactly when it
@@ -259,9 +260,10 @@ def firstBad (N : Numerals F) (alt : List (String × List (Val F))) : List (Stri
     | some a => if memAlt N v a then firstBad N alt r else some k
     | none => firstBad N alt r
 
-/-- `Config.check` (reads `as_dict()`, i.e. the cache when it is non-empty) -/
+/-- `Config.check` (reads `as_dict(refresh=True)`: the live fields; on the pinned tree it read the cached
+dictionary, which the constructor's own `check()` had filled — finding `alt-not-rejected-by-update`, repaired) -/
 def Cfg.check (N : Numerals F) (c : Cfg F) : Except (Err × String) (Cfg F) :=
-  let c' := c.asDict false
+  let c' := c.asDict true
   match firstBad N c'.alt c'.cache with
   | some k => .error (Err.notAChoice, k)
   | none => .ok c'
@@ -425,7 +427,8 @@ def saveKVs (N : Numerals F) : List (String × Val F) → List String → Except
         | .ok s => .ok ((lower k, t) :: s)
 
 def Cfg.saveSect (N : Numerals F) (c : Cfg F) : Except Err (Cfg F × Sect) :=
-  let c' := c.asDict false
+  -- `collect_config` reads `as_dict(refresh=True)` (pinned tree: the cached dictionary, finding `save-stale-cache`)
+  let c' := c.asDict true
   match saveKVs N c'.cache [] with
   | .error e => .error e
   | .ok s => .ok (c', s)
